@@ -35,9 +35,13 @@ def gen(rng, n):
                 dirs.append((lay.top1(v), 'top1'))
         days = rng.choice([None, 0, 1, 2, 7, 30, 365, 366, 10000])
         nodes, ents = [], []
-        for k in range(rng.randint(1, 7)):
+        fam = scen.suffix_family(rng)
+        famdir = rng.choice(dirs)
+        for k in range(max(rng.randint(1, 7), len(fam))):
             td, kind = rng.choice(dirs)
             name = 'e%d' % k
+            if k < len(fam):
+                (td, kind), name = famdir, fam[k]
             r = rng.random()
             d = days if days is not None else 3
             lim = NOW - datetime.timedelta(days=d)
